@@ -1,9 +1,88 @@
 import Driver.Util
+import Mtv.Rand.Graph
+import Mtv.Gen.CallGraph
 namespace Driver.C19
-open Mtv Driver
+open Mtv Mtv.Rand Driver
 
-/-- operations of property C19; not built yet -/
+/-
+  The Lean side of the C19 correspondence: what the regenerated call graph predicts for the dynamic
+  experiments the Go harness makes on the real functions.
+
+    c19.secret <fn> <k>   draw twice after identical math/rand seeding, try to predict from the clock
+                          → fresh | predictable
+    c19.hs <k>            the nonce of req_pq on the wire in two key exchanges after identical seeding
+                          → fresh | predictable
+    c19.reseed <fn> <k>   create a client, then draw: is the value a function of the clock at creation?
+                          → independent | reseeded
+    c19.xproc <fn>        draw once in each of two fresh processes → fresh | predictable
+    c19.path <fn>         diagnosis: a path from the function to a math/rand node (not sent by the harness)
+-/
+
+def M : Model := Mtv.Gen.CallGraph.model
+
+def repo : String := "github.com/xelaj/mtproto"
+
+def nodeName? : String → Option String
+  | "nonce128" => some (repo ++ "/internal/encoding/tl.RandomInt128")
+  | "nonce256" => some (repo ++ "/internal/encoding/tl.RandomInt256")
+  | "dh_b" => some (repo ++ "/internal/math.MakeGAB")
+  | "srp_a" => some (repo ++ "/telegram.GetInputCheckPassword")
+  | "wire_nonce" => some "secret:nonce"
+  | "new_client" => some (repo ++ ".NewMTProto")
+  | _ => none
+
+def indexOf (s : String) : List String → Nat → Option Nat
+  | [], _ => none
+  | x :: xs, i => if x == s then some i else indexOf s xs (i + 1)
+
+def node? (key : String) : Option Nat :=
+  match nodeName? key with
+  | some n => indexOf n Mtv.Gen.CallGraph.names 0
+  | none => none
+
+/-- the static verdict for one function: everything it can reach is free of math/rand, clock readers and
+    foreign readers, and it does reach crypto/rand -/
+def good (x : Nat) : Bool := M.sourceOK x && M.sourcePure x && M.readerStores.isEmpty
+
+def verdict (key : String) (yes no : String) : String :=
+  if !M.ok then "extractor-failed" else
+  match node? key with
+  | some x => if good x then yes else no
+  | none => "unknown-node"
+
+def reseedVerdict (key : String) : String :=
+  if !M.ok then "extractor-failed" else
+  match node? key, node? "new_client" with
+  | some x, some c =>
+    let rc := reachM2 M.chunk M.adj c
+    let rx := reachM2 M.chunk M.adj x
+    -- creating a client reseeds a math/rand generator, and the function reads math/rand
+    if someIn rc M.seeders && someIn rx M.mathRand then "reseeded" else "independent"
+  | _, _ => "unknown-node"
+
+def nameOf (i : Nat) : String := (Mtv.Gen.CallGraph.names.getD i "?")
+
+def pathTo (key : String) (bad : List Nat) : String :=
+  match node? key with
+  | none => "unknown-node"
+  | some x =>
+    let r := reach2 M.chunk M.adj x
+    match firstIn bad r.reverse with
+    | none => "none"
+    | some t => " -> ".intercalate ((backPath M.sc x r r.length t []).map nameOf)
+
+def isFn (fn : String) : Bool := fn == "nonce128" || fn == "nonce256" || fn == "dh_b" || fn == "srp_a"
+
 def handle : List String → String
+  | ["c19.secret", fn, k] =>
+    if isFn fn && k.toNat?.isSome then verdict fn "fresh" "predictable" else "bad-op"
+  | ["c19.hs", k] => if k.toNat?.isSome then verdict "wire_nonce" "fresh" "predictable" else "bad-op"
+  | ["c19.reseed", fn, k] => if isFn fn && k.toNat?.isSome then reseedVerdict fn else "bad-op"
+  | ["c19.xproc", fn] => if isFn fn then verdict fn "fresh" "predictable" else "bad-op"
+  | ["c19.reader"] =>
+    if !M.ok then "extractor-failed" else if M.readerStores.isEmpty then "os" else "replaced"
+  | ["c19.path", fn] =>
+    if (nodeName? fn).isSome then pathTo fn (M.mathRand ++ M.clock ++ M.suspect) else "bad-op"
   | _ => "bad-op"
 
 end Driver.C19
